@@ -30,9 +30,10 @@ MANIFEST = {
             "kernel each run; roundtrip_equal_parse_partial: the same at stix2.parse level for 89 entry-point classes incl. "
             "MarkingDefinition and 2.1 Indicator; "
             "roundtrip_equal_bundle_partial: both Bundle classes, members parsed from their own dictionaries and stored as "
-            "objects of parse-covered classes -- 121 of 123 in all; roundtrip_equal_observed_partial: 2.1/ObservedData in its "
-            "object_refs form (no objects member); outside: ObservedData given an objects dictionary of observables (the 2.0 "
-            "form and the deprecated 2.1 form)); "
+            "objects of parse-covered classes -- 121 of 123; roundtrip_equal_observed_partial: 2.1/ObservedData in its "
+            "object_refs form (no objects member); roundtrip_equal_observed20_partial: 2.0/ObservedData with its objects "
+            "dictionary, members parsed by parse_observable -- every one of the 123 classes has a theorem; outside: "
+            "2.1/ObservedData given the deprecated objects dictionary); "
             "the two encoders differ exactly on defaulted optionals; sort_keys/indent/compact/pretty are permutations of "
             "members (same JSON value); pretty keeps the top-level class order and for constructed objects that order is the "
             "class's specification order followed by the sorted custom names (pretty_toplevel_spec_order_partial). Model tied to /repo by regenerated class "
@@ -528,9 +529,11 @@ def check(run):
             hdr = ("From Coq Require Import List String.\nFrom V Require Import Base.UString Model.SchemaTypes "
                    "Proofs.C01LibInstance Gen.Tables.\nImport ListNotations. Open Scope string_scope.\n"
                    "Definition names (l : list ustring) : string := fold_right (fun x acc => append (show_ustr x) (append \" \" acc)) \"\" l.\n")
-            cov = common.coq_eval_lines("c01cov", hdr, ["names lib_proved_idsw", "names lib_unproved_ids", "names lib_bundle_ids", "names lib_observed_ids"])
+            cov = common.coq_eval_lines("c01cov", hdr, ["names lib_proved_idsw", "names lib_unproved_ids", "names lib_bundle_ids", "names lib_observed_ids",
+                                                       "names lib_observed20_ids"])
+            run.coverage["roundtrip_theorem_classes_proved_by_observed20_theorem"] = cov[4].split()
             run.coverage["roundtrip_theorem_classes_proved_without_objects_member"] = cov[3].split()
-            run.coverage["roundtrip_theorem_classes_proved"] = len(cov[0].split()) + len(cov[2].split())
+            run.coverage["roundtrip_theorem_classes_proved"] = len(cov[0].split()) + len(cov[2].split()) + len(cov[4].split())
             run.coverage["roundtrip_theorem_classes_proved_by_bundle_theorem"] = cov[2].split()
             run.coverage["roundtrip_theorem_classes_unproved"] = cov[1].split()
         except RuntimeError as e:
